@@ -86,4 +86,36 @@ bool ops_archive(Ctx& c, const json& s, int idx, bool& handled) {
 			std::vector<unsigned char> got; if (throws([&] { auto st = v->OpenStream(i); got = drain(*st); })) { Proto::mismatch(site + "/stream", "refused-should-accept", w2("")); return false; } if (got != raw(L[i]["stored"])) { Proto::mismatch(site + "/stream", "bytes", w2(Scen::hexdiff(got, raw(L[i]["stored"])))); return false; }
 			std::string d = ROOT + "/x" + std::to_string(i); if (throws([&] { v->ExtractFile(i, d); })) { Proto::mismatch(site + "/extract", "refused-should-accept", w2("")); return false; } auto ex = Scen::slurp(d), want = raw(L[i]["plain"]); if (ex != want) { Proto::mismatch(site + (L[i]["kind"].get<int>() == 259 ? "/extract-lzh" : "/extract"), "bytes", w2(Scen::hexdiff(ex, want))); return false; } }
 		if (!throws([&] { v->GetName(L.size()); })) { Proto::mismatch(site, "accepted-should-refuse", where("index = count (an unused slot)")); return false; } return true; }
+	// ---- C13, archive clause: member streams, copies of them and archive calls interleaved; every stream keeps its own position ----
+	if (op == "arch_interleave") {
+		for (const std::string kind : {"vol", "clm"}) { const std::string ksite = site + "/" + kind; Proto::sanitize(Proto::g_site, sizeof Proto::g_site, ksite);
+			std::vector<std::vector<unsigned char>> content; std::vector<std::string> names, inputs; int mi = 0;
+			for (auto& sz : s["sizes"]) { std::size_t n = sz; std::vector<unsigned char> c(n); for (std::size_t j = 0; j < n; ++j) c[j] = Scen::blob_byte(20 + mi, j); content.push_back(c);
+				std::string name = std::string(kind == "vol" ? "m" : "t") + std::to_string(mi); names.push_back(name); std::string path = ROOT + "/" + kind + "in/" + name + (kind == "vol" ? "" : ".wav");
+				if (kind == "vol") Scen::spit(path, c); else { std::vector<unsigned char> w; auto le = [&](unsigned long v, int b) { for (int i = 0; i < b; ++i) w.push_back((unsigned char)(v >> (8 * i))); }; auto tag = [&](const char* t) { w.insert(w.end(), t, t + 4); };
+					tag("RIFF"); le(36 + n, 4); tag("WAVE"); tag("fmt "); le(16, 4); le(1, 2); le(1, 2); le(22050, 4); le(44100, 4); le(2, 2); le(16, 2); tag("data"); le(n, 4); w.insert(w.end(), c.begin(), c.end()); Scen::spit(path, w); }
+				inputs.push_back(path); ++mi; }
+			const std::string apath = ROOT + "/i." + kind; std::unique_ptr<Archive::ArchiveFile> arch;
+			if (throws([&] { if (kind == "vol") { Archive::VolFile::CreateArchive(apath, inputs); arch = std::make_unique<Archive::VolFile>(apath); } else { Archive::ClmFile::CreateArchive(apath, inputs); arch = std::make_unique<Archive::ClmFile>(apath); } })) { Proto::mismatch(ksite, "refused-should-accept", where("creating / opening the archive")); return false; }
+			std::vector<std::unique_ptr<Stream::BidirectionalReader>> streams; std::vector<std::size_t> member; std::vector<unsigned long long> pos; int k = 0;
+			for (auto& o : s["ops"]) { ++k; const std::string what = o["op"]; auto note = [&](const std::string& e) { return where(kind + " op " + std::to_string(k) + " " + o.dump() + " " + e); };
+				if (what == "open") { std::size_t m = o["m"]; std::unique_ptr<Stream::BidirectionalReader> r; bool err = throws([&] { r = arch->OpenStream(m); }); if (err == o["ok"].get<bool>()) { Proto::mismatch(ksite + "/OpenStream", err ? "refused-should-accept" : "accepted-should-refuse", note("")); return false; }
+					if (!err) { if (r->Position() != 0 || r->Length() != content[m].size()) { Proto::mismatch(ksite + "/OpenStream", "state", note("fresh stream at " + std::to_string((long long)r->Position()) + " of " + std::to_string((long long)r->Length()))); return false; } streams.push_back(std::move(r)); member.push_back(m); pos.push_back(0); } }
+				else if (what == "copy") { std::size_t si = o["s"]; auto* fsr = dynamic_cast<Stream::FileSliceReader*>(streams[si].get()); if (!fsr) { Proto::mismatch(ksite + "/copy", "harness-assumption", note("member stream is not a FileSliceReader")); return false; }
+					streams.push_back(std::make_unique<Stream::FileSliceReader>(*fsr)); member.push_back(member[si]); pos.push_back(streams.back()->Position()); 
+					if (streams.back()->Length() != content[member[si]].size() || streams.back()->Position() > streams.back()->Length()) { Proto::mismatch(ksite + "/copy", "state", note("")); return false; } }
+				else if (what == "read" || what == "readpartial") { std::size_t si = o["s"], kk = o["k"]; unsigned char buf[8] = {0}; std::size_t n = 0; bool err = false;
+					// a copy may start anywhere inside its member (the property asks for independence only): expectations are taken relative to this stream's own position
+					const auto& c = content[member[si]]; unsigned long long p0 = pos[si]; std::size_t remaining = c.size() - p0; bool wantOk = what == "readpartial" || kk <= remaining; std::size_t wantN = what == "readpartial" ? std::min(kk, remaining) : kk;
+					try { if (what == "read") { streams[si]->Read(buf, kk); n = kk; } else n = streams[si]->ReadPartial(buf, kk); } catch (const std::exception&) { err = true; }
+					if (err == wantOk) { Proto::mismatch(ksite + "/" + what, err ? "refused-should-accept" : "accepted-should-refuse", note("")); return false; }
+					if (!err) { if (n != wantN || !std::equal(buf, buf + n, c.begin() + p0)) { Proto::mismatch(ksite + "/" + what, "bytes", note("delivered " + std::to_string(n) + " bytes from position " + std::to_string(p0))); return false; } pos[si] = p0 + n; } }
+				else if (what == "seek") { std::size_t si = o["s"]; unsigned long long p = o["p"]; bool wantOk = p <= content[member[si]].size(); bool err = throws([&] { streams[si]->Seek(p); }); if (err == wantOk) { Proto::mismatch(ksite + "/seek", err ? "refused-should-accept" : "accepted-should-refuse", note("")); return false; } if (!err) pos[si] = p; }
+				else if (what == "call") { const std::string cc = o["c"]; std::size_t m = o["m"];
+					if (throws([&] { if (cc == "name") { if (arch->GetName(m) != names[m]) throw std::logic_error("name"); } else if (cc == "size") { if (arch->GetSize(m) != content[m].size()) throw std::logic_error("size"); }
+							else if (cc == "index") { if (arch->GetIndex(names[m]) != m) throw std::logic_error("index"); } else { std::string d = ROOT + "/x.bin"; arch->ExtractFile(m, d); auto got = Scen::slurp(d); if (got.size() < content[m].size() || !std::equal(content[m].begin(), content[m].end(), got.end() - content[m].size())) throw std::logic_error("extract"); } }))
+						{ Proto::mismatch(ksite + "/call." + cc, "value", note("")); return false; } }
+				// independence: every live stream is where its own history put it
+				for (std::size_t i = 0; i < streams.size(); ++i) if (streams[i]->Position() != pos[i]) { Proto::mismatch(ksite + "/" + what, "other-stream-changed", note("stream " + std::to_string(i) + " is at " + std::to_string((long long)streams[i]->Position()) + ", its own history puts it at " + std::to_string(pos[i]))); return false; } } }
+		return true; }
 	OPS_EPILOGUE }
